@@ -16,7 +16,8 @@ CHECKS = {
                  "with a reader present or the scheduler pre-empted an enabled task; distinct = distinct hash of the full "
                  "(task, yield point) schedule plus monitor event log. One history in 12 (quick) or 3 (thorough) runs on the REAL cdb / rocksdb "
                  "drivers instead (queries through ServeDNS are the readers, reloads publish real files, unreadable and key-less targets, injected "
-                 "errors and delays, shutdown at a seeded position) under the same monitor, plus a count of RocksDB secondary log directories."),
+                 "errors and delays, shutdown at a seeded position) under the same monitor, plus a count of RocksDB secondary log directories; one in three of those is a whole-process run "
+                 "(real fbserver.Server: watcher loops, control files, SIGHUP, LogMapAge and DumpBackendStats tickers that outlive Server.Shutdown)."),
         "components": {
             "real": REAL_SERVER,
             "stub": ["storage back end: in-memory db.DBI with RocksDB-like (same path = same back end) or CDB-like (always new) "
@@ -28,10 +29,10 @@ CHECKS = {
         "assumptions": [
             "interleavings are explored at the granularity of the verif yield points; code between two points runs atomically",
             "the select tie of db.Reload (worker done and timeout in the same instant) is not reachable under the scheduler",
-            "no reader acquisition is started after shutdown began (the server stops its listeners first)",
+            "no client query is started after shutdown began (the server stops its listeners first); the server's own tickers (LogMapAge) do acquire readers after shutdown and are judged",
         ],
-        "required_probes": {"quick": ["reload_ok", "reload_timed_out", "validation_failed", "reload_error", "real_backend_history_with_shutdown", "lowlevel_catchup_failed"],
-                            "thorough": ["reload_ok", "reload_timed_out", "validation_failed", "reload_error", "real_backend_history_with_shutdown", "lowlevel_catchup_failed"]},
+        "required_probes": {"quick": ["reload_ok", "reload_timed_out", "validation_failed", "reload_error", "real_backend_history_with_shutdown", "lowlevel_catchup_failed", "whole_process_history_with_shutdown"],
+                            "thorough": ["reload_ok", "reload_timed_out", "validation_failed", "reload_error", "real_backend_history_with_shutdown", "lowlevel_catchup_failed", "whole_process_history_with_shutdown"]},
     },
     "C05": {
         "test": "TestC05",
@@ -42,22 +43,23 @@ CHECKS = {
                  "publishing a new generation-stamped database and reloading (full / partial; valid, missing, unreadable, without "
                  "validation key, injected error, slower than the timeout), interleaved by the seeded scheduler at the verif yield "
                  "points of the handler and of the reload path. Non-trivial = at least one query overlapped a reload or the scheduler "
-                 "pre-empted an enabled task; distinct = distinct hash of the full (task, yield point) schedule."),
+                 "pre-empted an enabled task; distinct = distinct hash of the full (task, yield point) schedule."
+                 " One run in 4 is a WHOLE-PROCESS run: the handler lives in a real fbserver.Server as cmd/dnsrocks builds it; reload requests travel as control files ('switchdb' with the new path, 'reload') plus the file-system events inotify would report, as events for the database path through the -watchdb loop, or as SIGHUP through Server.ReloadDB, all through the real watcher loops on simulated event channels; Server.LogMapAge and Server.DumpBackendStats run on their 10 s tickers and keep running after shutdown; a watcher loop that returns an error shuts the server down as Server.WatchDBAndReload does; shutdown is Server.Shutdown. A reload request that ends a watcher loop (and with it the server) is a violation of 'a failed reload leaves the server answering as if nothing happened'."),
         "components": {
-            "real": REAL_SERVER + ["dnsserver.FBDNSDB.ServeDNS (cache off)", "db answer/location code", "cdb driver on real CDB files (mmap)",
+            "real": REAL_SERVER + ["fbserver.Server (NewServer, ReloadDB, LogMapAge, DumpBackendStats, PeriodicDBReload, Shutdown), FBDNSDB.watchDBAndReload / watchControlDirAndReload / getNewDBPath / cleanupSignalFile in whole-process runs", "dnsserver.FBDNSDB.ServeDNS (cache off)", "db answer/location code", "cdb driver on real CDB files (mmap)",
                                    "rocksdb driver on real RocksDB directories (secondary; in-process primary applying diffs), v1 and v2 keys",
                                    "dnsdata/cdb and dnsdata/rdb compilers (outside the bubble), rdb.ApplyDiff (inside)"],
             "stub": ["recording stats.Stats and dnsserver.Logger", "monitor wrapper around the real db.DBI (reload fault plan)"],
             "simulated": ["clock, timers, context deadlines (testing/synctest)", "goroutine scheduling at yield points (seeded)"],
-            "not_run": ["fsnotify watchers (signals are sent by the operator task directly or through ReloadChan)", "network"],
+            "not_run": ["inotify itself (in whole-process runs the watcher loops run on simulated event channels)", "network"],
         },
         "assumptions": [
             "interleavings are explored at the granularity of the verif yield points",
             "RocksDB's own background threads are real and unscheduled; only logical content is observed",
             "publish and reload are never concurrent with each other (each reload has a definite target)",
         ],
-        "required_probes": {"quick": ["query_overlaps_reload", "reload_ok", "reload_timed_out", "validation_failed", "reload_error"],
-                            "thorough": ["query_overlaps_reload", "reload_ok", "reload_timed_out", "validation_failed", "reload_error", "decoy_published", "lowlevel_catchup_failed"]},
+        "required_probes": {"quick": ["query_overlaps_reload", "reload_ok", "reload_timed_out", "validation_failed", "reload_error", "whole_process_run", "reload_requested_by_switchdb_file", "reload_requested_by_reload_file", "reload_requested_by_sighup", "reload_requested_by_db_event"],
+                            "thorough": ["query_overlaps_reload", "reload_ok", "reload_timed_out", "validation_failed", "reload_error", "decoy_published", "lowlevel_catchup_failed", "whole_process_run", "reload_requested_by_switchdb_file", "reload_requested_by_reload_file", "reload_requested_by_sighup", "reload_requested_by_db_event"]},
     },
     "C12": {
         "test": "TestC12",
@@ -240,15 +242,17 @@ CHECKS = {
                  "reporter calling ReportBackendStats, reload signals sent through ReloadChan by a task of their own (as Server.ReloadDB does on SIGHUP), the response cache on or off, and Close at a seeded position (after in-flight queries drained, "
                  "as the listeners do); violations are a quiescent state with unfinished tasks (deadlock), any panic, and any call that reaches a closed "
                  "storage back end (intercepted by the monitor; a crash on the real cgo/mmap back ends). Non-trivial = at least one pre-emption; "
-                 "distinct = schedule hash. Tier (b), data races: see the race_tier block of this evidence."),
+                 "distinct = schedule hash. One run in 3 is a WHOLE-PROCESS run: the handler lives in a real fbserver.Server as cmd/dnsrocks builds it; reload requests travel as control files ('switchdb' with the new path, 'reload') plus the file-system events inotify would report, as events for the database path through the -watchdb loop, or as SIGHUP through Server.ReloadDB, all through the real watcher loops on simulated event channels; Server.LogMapAge and Server.DumpBackendStats run on their 10 s tickers and keep running after shutdown; a watcher loop that returns an error shuts the server down as Server.WatchDBAndReload does; shutdown is Server.Shutdown. In those runs spurious and duplicated file-system events, an error on a watcher's error channel (inotify overflow) and a second Server.Shutdown (SIGTERM after a watcher-induced shutdown) are part of the fault space. Tier (b), data races: see the race_tier block of this evidence."),
         "components": {
-            "real": REAL_SERVER + ["FBDNSDB.PeriodicDBReload, ReportBackendStats, Close", "ServeDNS with and without cache", "cdb and rocksdb drivers"],
+            "real": REAL_SERVER + ["FBDNSDB.PeriodicDBReload, ReportBackendStats, Close", "ServeDNS with and without cache", "cdb and rocksdb drivers",
+                                   "fbserver.Server (NewServer, ReloadDB, LogMapAge, DumpBackendStats, PeriodicDBReload, Shutdown) and the watcher loops watchDBAndReload / watchControlDirAndReload in whole-process runs"],
             "stub": ["recording Stats/Logger", "monitor wrapper around the real db.DBI"],
             "simulated": ["clock, tickers", "goroutine scheduling at yield points (seeded)"],
-            "not_run": ["fsnotify watchers (watchDBAndReload's read of the database path is out of reach)", "network"],
+            "not_run": ["inotify itself (the watcher loops run on simulated event channels; prepareDBWatcher is not called)", "network"],
         },
         "assumptions": ["Close is called after in-flight queries finished (dns.Server.Shutdown waits for its handlers); reload loop, periodic reload and stats reporter keep running, as in the shipped binary"],
-        "required_probes": {"quick": ["shutdown_reached", "periodic_reload_running", "stats_reporter_running", "async_signals_and_shutdown"], "thorough": ["shutdown_reached", "periodic_reload_running", "stats_reporter_running", "async_signals_and_shutdown", "lowlevel_catchup_failed"]},
+        "required_probes": {"quick": ["shutdown_reached", "periodic_reload_running", "stats_reporter_running", "async_signals_and_shutdown", "whole_process_run_with_shutdown", "shutdown_by_failed_watcher", "second_shutdown"],
+                            "thorough": ["shutdown_reached", "periodic_reload_running", "stats_reporter_running", "async_signals_and_shutdown", "lowlevel_catchup_failed", "whole_process_run_with_shutdown", "shutdown_by_failed_watcher", "second_shutdown"]},
     },
     "C20": {
         "test": "TestC20",
